@@ -50,7 +50,7 @@ def run(ctx):
         if rc != 0 or not os.path.exists(out):
             sig = vlib.crash_attribution(txt)
             if sig:
-                ctx.violation("crash:" + sig, ctx.save_replay("crash", {"output": txt[-6000:]}), "a backend crashed while sending a flush: " + sig)
+                ctx.violation("crash:" + sig[0], ctx.save_replay("crash", {"output": sig[1]}), "a backend crashed while sending a flush: " + sig[0])
                 return
             raise vlib.MachineryError("harness c17 failed (rc=%d)\n%s" % (rc, txt[-3000:]))
         os.unlink(cases)
